@@ -213,7 +213,9 @@ def run(ctx):
             for n in iter_own(cc2p.node):
                 lv = n.target.elts[1].id if isinstance(n, ast.For) and isinstance(n.target, ast.Tuple) and len(n.target.elts) == 2 and isinstance(n.target.elts[1], ast.Name) else None
                 if lv is not None and any(isinstance(d, ast.Delete) and any(norm(t) == "{}[{}]".format(ent, lv) for t in d.targets) for b2 in n.body for d in ast.walk(b2)):
-                    for e in ast.walk(n.iter):
+                    from ..defuse import expand_aliases
+
+                    for e in ast.walk(expand_aliases(cc2p, n.iter)):
                         if isinstance(e, ast.Tuple) and len(e.elts) == 2 and isinstance(e.elts[1], ast.Constant):
                             loop_longnames.add(e.elts[1].value)
             removed = k in loop_longnames or any(
